@@ -1,11 +1,14 @@
 pub mod c01;
+pub mod c02;
+pub mod c08;
 pub mod c12;
+pub mod c14;
 pub mod c15;
 pub mod c16;
 
 use crate::core::run::{Check, Tier};
 
-pub const ALL: &[&str] = &["C01", "C12", "C15", "C16"];
+pub const ALL: &[&str] = &["C01", "C02", "C08", "C12", "C14", "C15", "C16"];
 
 pub fn build(id: &str, tier: Tier) -> Option<Check<'static>> {
     Some(match id {
@@ -13,6 +16,9 @@ pub fn build(id: &str, tier: Tier) -> Option<Check<'static>> {
         "C16" => c16::build(tier),
         "C15" => c15::build(tier),
         "C12" => c12::build(tier),
+        "C08" => c08::build(tier),
+        "C02" => c02::build(tier),
+        "C14" => c14::build(tier),
         _ => return None,
     })
 }
